@@ -168,10 +168,12 @@ SaveDone ==
 \* reloadFlows: dry-run validation, build+switch, health check, HAProxy endpoints, metrics reload
 Valid == /\ \A f \in Flows : disk[f] \notin {"bad", "junk"}
          /\ disk[Gw] # "gbad"
+\* after the roll-back's reload /configuration reports 500 in any case (a second, ignored WriteHeader); /apply_flows only logs
+EndRound2 == IF ApplyEP THEN pc' = "reply" /\ UNCHANGED <<nxt, sigc>> ELSE GoSignal(500, "reply")
 Fail == IF round = 1
         THEN IF HasBackup THEN GoSignal(422, "restore") /\ after' = "reload2"
                           ELSE GoSignal(422, "reply") /\ after' = after
-        ELSE GoSignal(500, "reply") /\ after' = after
+        ELSE EndRound2 /\ after' = after
 
 ValidateOK  == pc = "validate" /\ Quiet /\ Valid /\ Step(IF PublishBeforeInit THEN "publish0" ELSE "init")
                /\ Same /\ NoHit /\ NoObs
@@ -214,7 +216,7 @@ HapDone == pc = "haproxy" /\ Quiet /\ hapLeft = 0 /\ Step("metrics") /\ Same /\ 
 MetricsBad == pc = "metrics" /\ disk[Mx] = "mbad" /\ Fail
               /\ UNCHANGED <<c, round, disk, backup, active, todo, todoR, sub, hapLeft>> /\ NoHit /\ NoObs
 MetricsOK  == /\ pc = "metrics" /\ disk[Mx] # "mbad"
-              /\ IF round = 1 THEN GoSignal(200, "reply") ELSE GoSignal(500, "reply")   \* the handler reports 500 after a roll-back in any case
+              /\ IF round = 1 THEN GoSignal(200, "reply") ELSE EndRound2
               /\ Same /\ NoHit /\ NoObs
 
 \* FileSystemOperation.Restore
